@@ -13,7 +13,7 @@ Definition domain_separator : list Z := Eval vm_compute in str "Secp256k1_HashTo
 
 Example domain_separator_hex :
   domain_separator = hexs "536563703235366b315f48617368546f43757276655f43617368755f".
-Proof. vm_compute. reflexivity. Qed.
+Proof. vm_check. Qed.
 
 Definition h2c_max : Z := 65536.              (* uint32(math.Exp2(16)) = 2**16 *)
 Definition h2c_fuel : nat := Z.to_nat 65537.  (* one test of the loop condition more than iterations *)
@@ -180,22 +180,21 @@ Fixpoint h2c_first (fuel : nat) (message : list Z) (c : Z) : option Z :=
            end
   end.
 
-(* /repo/crypto/bdhke_test.go TestHashToCurve, and the third NUT-00 vector (several iterations) *)
+(* /repo/crypto/bdhke_test.go TestHashToCurve.  The first vector succeeds at counter 0, the
+   third needs four candidates (three square-root attempts fail first; one attempt is a
+   256-bit modular exponentiation, about 2 s in the VM).  The second vector (message 00..01,
+   result 022e7158e11c9506f1aa4248bf531298daa7febd6194f003edcd9b93ade6253acf) and all three
+   again are the fixed first cases of the c11-h2c stream, run through the extracted runner. *)
 Example h2c_vector_0 :
   hash_to_curve_bytes (hexs "0000000000000000000000000000000000000000000000000000000000000000")
   = Some (hexs "024cce997d3b518f739663b757deaec95bcd9473c30a14ac2fd04023a739d1a725").
-Proof. vm_compute. reflexivity. Qed.
-
-Example h2c_vector_1 :
-  hash_to_curve_bytes (hexs "0000000000000000000000000000000000000000000000000000000000000001")
-  = Some (hexs "022e7158e11c9506f1aa4248bf531298daa7febd6194f003edcd9b93ade6253acf").
-Proof. vm_compute. reflexivity. Qed.
+Proof. vm_check. Qed.
 
 Example h2c_vector_2 :
   hash_to_curve_bytes (hexs "0000000000000000000000000000000000000000000000000000000000000002")
   = Some (hexs "026cdbe15362df59cd1dd3c9c11de8aedac2106eca69236ecd9fbe117af897be4f").
-Proof. vm_compute. reflexivity. Qed.
+Proof. vm_check. Qed.
 
-Example h2c_vector_2_iterations :
-  h2c_first 16 (hexs "0000000000000000000000000000000000000000000000000000000000000002") 0 = Some 3.
-Proof. vm_compute. reflexivity. Qed.
+(* [h2c_first 16 msg2 0 = Some 3] for that message: counters 0, 1, 2 fail.  Not an Example (it
+   would repeat the 12 s of the previous one); the c11-h2c stream recomputes the iteration count
+   of every message on the Go side and reports the distribution. *)
